@@ -1,5 +1,7 @@
 package data
 
+import "github.com/olive-io/bpmn/schema"
+
 // C17 (reduced claim): lock discipline of the flow data locator - its maps are only touched while the lock that guards
 // them is held (the public methods are executed one after the other; the interpreter checks every map access).
 func VerifC17_LocatorLocks() {
@@ -15,6 +17,20 @@ func VerifC17_LocatorLocks() {
 	_, _ = f.FindIItemAwareLocator(LocatorObject)
 	_ = f.CloneItems(LocatorObject)
 	_ = f.CloneItems("absent")
+	// the data object container behind the locator
+	oc := NewDataObjectContainer()
+	verifGuardedBy(oc.dataObjects, &oc.mu, "ObjectContainer.dataObjects")
+	verifGuardedBy(oc.dataObjectsByName, &oc.mu, "ObjectContainer.dataObjectsByName")
+	verifGuardedBy(oc.propertiesByName, &oc.mu, "ObjectContainer.propertiesByName")
+	c1 := NewContainer(nil)
+	c1.Put(schema.NewValue(int64(1)))
+	oc.PutItemAwareById("o", c1)
+	oc.PutItemAwareByName("n", c1)
+	_, _ = oc.FindItemAwareById("o")
+	_, _ = oc.FindItemAwareByName("n")
+	_ = oc.Clone()
+	oc2 := NewDataObjectContainer()
+	oc.CloneFor(oc2)
 	g := NewFlowDataLocator()
 	verifGuardedBy(g.variables, &g.vmu, "FlowDataLocator.variables")
 	verifGuardedBy(g.locators, &g.lmu, "FlowDataLocator.locators")
